@@ -198,6 +198,8 @@ class Gen:
         name = r.choice(["axes", "axes", "feed-rate", "tool-power", "tool-power", "tool-number",
                          "bed-temperature", "hotend-temperature", "chamber-temperature"])
         if name == "axes":
+            if r.random() < self.fail_rate * 0.5:    # refused: not (min < max) as points
+                return {"call": "set_bounds", "name": name, "lo": r.choice([[0.0, 0.0, 0.0], [0.0, 21.0, 0.0]]), "hi": [0.0, 0.0, 0.0]}
             self.bounds[name] = (0.0, 20.0)
             return {"call": "set_bounds", "name": name, "lo": [0.0, 0.0, 0.0], "hi": [20.0, 20.0, 20.0]}
         if name == "tool-number":
@@ -208,6 +210,8 @@ class Gen:
             lo, hi = r.choice([(100.0, 1000.0), (1.0, 2000.0), (0.0, 500.0)])
         else:
             lo, hi = r.choice([(0.0, 100.0), (20.0, 250.0), (10.0, 60.0)])
+        if r.random() < self.fail_rate * 0.5:        # refused: min >= max; the bounds in force stay as they are
+            return {"call": "set_bounds", "name": name, "lo": hi, "hi": r.choice([lo, hi])}
         self.bounds[name] = (lo, hi)
         return {"call": "set_bounds", "name": name, "lo": lo, "hi": hi}
 
